@@ -26,6 +26,19 @@ template <> struct TypeTag<char> { enum { value = 3 }; static std::string repr(c
 template <> struct TypeTag<std::string> { enum { value = 4 }; static std::string repr(const std::string & v) { return v; } };
 template <> struct TypeTag<Color> { enum { value = 5 }; static std::string repr(Color v) { return std::to_string((int)v); } };
 
+// digesters whose digest type is NOT std::size_t:
+//  - a two-word digest (type tag, value hash) that converts to size_t lossily (only the value word): ids of different
+//    types with equal value words have unequal digests but equal hashes;
+//  - a textual digest (std::string), not convertible to size_t at all (hashed through std::hash<std::string>)
+struct WideDigest {
+	std::size_t type, val;
+	operator std::size_t() const { return val; }
+	bool operator==(const WideDigest & o) const { return type == o.type && val == o.val; }
+	bool operator<(const WideDigest & o) const { return type != o.type ? type < o.type : val < o.val; }
+};
+template <typename T> struct Wide { WideDigest operator()(const T & v) const { return WideDigest{(std::size_t)TypeTag<T>::value, std::hash<std::string>()(TypeTag<T>::repr(v)) & 3u}; } };
+template <typename T> struct Textual { std::string operator()(const T & v) const { return std::string(1, (char)('A' + TypeTag<T>::value)) + TypeTag<T>::repr(v); } };
+
 struct TaggedValue {
 	int type; std::string repr;
 	TaggedValue() : type(0) {}
@@ -130,16 +143,20 @@ static void runAll(Ctx & ctx, UnitReport & rep) {
 	runConfig<eventpp::AnyId<std::hash, TextValue>, 2>(ctx, "AnyId<std::hash, textual storage>", evals);
 	runConfig<eventpp::AnyId<OneBit, TextValue>, 2>(ctx, "AnyId<1-bit digester, textual storage>", evals);
 	runConfig<eventpp::AnyId<Constant, TextValue>, 2>(ctx, "AnyId<constant digester, textual storage>", evals);
+	runConfig<eventpp::AnyId<Wide, eventpp::EmptyAnyStorage>, 0>(ctx, "AnyId<two-word digest (lossy size_t conversion), EmptyAnyStorage>", evals);
+	runConfig<eventpp::AnyId<Wide, TextValue>, 2>(ctx, "AnyId<two-word digest (lossy size_t conversion), textual storage>", evals);
+	runConfig<eventpp::AnyId<Textual, eventpp::EmptyAnyStorage>, 0>(ctx, "AnyId<std::string digest, EmptyAnyStorage>", evals);
+	runConfig<eventpp::AnyId<Textual, TaggedValue>, 1>(ctx, "AnyId<std::string digest, value storage>", evals);
 	ctx.executions = evals;
 	rep.num["executions"] = (double)evals;
-	rep.num["configurations"] = 9;
+	rep.num["configurations"] = 13;
 	ctx.samples.push_back("AnyId<1-bit digester, value storage>: a = int 1, b = long 1 (digest collision, distinct ids); all 16^2 pairs and 16^3 triples per configuration");
 }
 
 static struct Register {
 	Register() {
 		Unit u; u.name = "C18/anyid"; u.minTier = 0;
-		u.run = [](Ctx & ctx, UnitReport & rep, int) { ctx.ex.beginExecution(); runAll(ctx, rep); rep.str["config"] = "16 values x 3 digesters x 3 storages: all pairs, all triples, dispatcher lookups in std::map and std::unordered_map"; };
+		u.run = [](Ctx & ctx, UnitReport & rep, int) { ctx.ex.beginExecution(); runAll(ctx, rep); rep.str["config"] = "16 values x 5 digesters (3 with size_t digests, a two-word digest converting lossily to size_t, a std::string digest) x up to 3 storages: all pairs, all triples, dispatcher lookups in std::map and std::unordered_map"; };
 		u.replay = [](Ctx & ctx, const std::vector<int> &) { UnitReport r; ctx.tracing = true; runAll(ctx, r); };
 		units().push_back(u);
 	}
